@@ -165,6 +165,15 @@ impl crate::fdl::FdlApplication for DpScanner {
             self.stations.set(usize::from(address), true);
         }
 
+        if !station_unknown && event.is_none() {
+            // Something answers at this address, but it is no longer a DP peripheral responding to
+            // diagnostics requests.  Forget the peripheral we once found here.
+            log::debug!("Lost peripheral #{} (no diagnostics response anymore).", address);
+            self.stations.set(usize::from(address), false);
+            self.pending_event = Some(DpScanEvent::PeripheralLost(address));
+            return;
+        }
+
         self.pending_event = event;
     }
 
